@@ -60,6 +60,9 @@ func nodesJ(nodes []core_domain.CodeDataStruct, strip string) []interface{} {
 			fj := map[string]interface{}{"Name": f.Name, "ReturnType": f.ReturnType, "Parameters": ps, "FunctionCalls": callsJ(f.FunctionCalls),
 				"Annotations": annosJ(f.Annotations), "Override": f.Override, "IsConstructor": f.IsConstructor, "Position": posJ(f.Position),
 				"Modifiers": append([]string{}, f.Modifiers...), "IsReturnNull": f.IsReturnNull}
+			if len(f.InnerStructures) > 0 {
+				fj["Inner"] = innerJ(f)
+			}
 			b, _ := json.Marshal(fj)
 			fs = append(fs, string(b))
 			fmap[string(b)] = fj
@@ -151,7 +154,31 @@ func javaFullMulti(c map[string]json.RawMessage, dir string) (interface{}, error
 	return map[string]interface{}{"runs": out, "identKeys": idk}, nil
 }
 
+// a case marked "unmodelled" (sources with constructs outside the Lean model, e.g. anonymous classes) is judged by the
+// statement-level oracle only: the flag is echoed so that the runner compares nothing else with the model
 func javaFullFamily(c map[string]json.RawMessage) (interface{}, error) {
+	res, err := javaFullFamily0(c)
+	if m, ok := res.(map[string]interface{}); ok && err == nil && boolean(c, "unmodelled") {
+		m["unmodelled"] = true
+	}
+	return res, err
+}
+
+// the types declared inside a function (anonymous classes): name, kind and the signatures of their methods
+func innerJ(f core_domain.CodeFunction) []interface{} {
+	out := []interface{}{}
+	for _, in := range f.InnerStructures {
+		fs := []string{}
+		for _, g := range in.Functions {
+			fs = append(fs, g.ReturnType+" "+g.Name)
+		}
+		sort.Strings(fs)
+		out = append(out, map[string]interface{}{"NodeName": in.NodeName, "Type": in.Type, "Functions": fs})
+	}
+	return out
+}
+
+func javaFullFamily0(c map[string]json.RawMessage) (interface{}, error) {
 	dir, err := writeTree(c, "files")
 	if dir != "" {
 		defer os.RemoveAll(dir)
